@@ -166,6 +166,8 @@ def gen_builtin_scn(rng, extreme=False) -> ch.Scn:
     if extreme:
         # surrogates other than XGBoost may legitimately refuse +-1e40 targets (sklearn raises); they are not the subject here
         names = ["HaltonSampler", "XGBoostSampler", rng.choice(["HaltonSampler", "RandomUniformSampler", "RSequenceSampler", "BestBatchSampler", "XGBoostSampler"]), "XGBoostSampler"]
+    if extreme == "offset":
+        names = ["HaltonSampler", "XGBoostSampler", rng.choice(["RandomForestSampler", "BestBatchSampler", "RandomUniformSampler"]), "XGBoostSampler"]
     lineup = [(nm, rng.randint(2, 4) if nm != "CORSSampler" else rng.randint(2, 3), None, rng.choice([None, 5])) for nm in names]
     lineup[0] = ("HaltonSampler", 4, None, lineup[0][3])     # best-batch needs at least batch_size existing points
     if extreme == "inf":
@@ -173,7 +175,7 @@ def gen_builtin_scn(rng, extreme=False) -> ch.Scn:
         lineup = [("HaltonSampler", 5, None, None)] + [(rng.choice(["RandomForestSampler", "XGBoostSampler", "BestBatchSampler", "RandomUniformSampler"]), rng.randint(2, 3), None, None) for _ in range(3)]
     return ch.Scn(ensemble=rng.randint(1, 3), simlen=dims + 3, dims=dims, seed=rng.randrange(10 ** 5), lineup=lineup,
                   bounds=(tuple(0.0 for _ in range(dims)), tuple(1.0 for _ in range(dims))), precision=tuple(0.01 for _ in range(dims)),
-                  loss_fn=("infmix" if extreme == "inf" else "extreme") if extreme else rng.choice(["sum", "dist", "ties"]),
+                  loss_fn=("infmix" if extreme == "inf" else "offset" if extreme == "offset" else "extreme") if extreme else rng.choice(["sum", "dist", "ties"]),
                   ops=[("C", rng.randint(1, 3)) for _ in range(rng.randint(2, 3))])
 
 
@@ -223,7 +225,7 @@ def run(chk: Check):
     # built-in samplers (recorded outputs), incl. the XGBoost float32-overflow case
     nb_runs = 10 if chk.tier == "quick" else 150
     for i in range(nb_runs):
-        scn = gen_builtin_scn(rng, extreme="tiny" if i % 4 == 3 else ("inf" if i % 3 == 1 else True) if i % 3 != 2 else False)
+        scn = gen_builtin_scn(rng, extreme="tiny" if i % 4 == 3 else "offset" if i % 6 == 2 else ("inf" if i % 3 == 1 else True) if i % 3 != 2 else False)
         chk.count("builtin:" + ("tiny_space" if i % 4 == 3 else "other"))
         lines, info, errs = run_with_oracle(chk, scn, "builtin")
         chk.case(scn_json(scn), True, {"lineup": [c for c, *_ in scn.lineup], "loss_fn": scn.loss_fn, "ops": scn.ops})
@@ -239,6 +241,79 @@ def run(chk: Check):
         if not ok:
             chk.disagree("Calibrator (built-in samplers) != BlackIt.Calibrator.calibrate",
                          {"scenario": scn_json(scn), "op_index": k, "fields": ch.diff_fields(a, b) if k is not None and k >= 0 else None, "impl": a[:400], "model": b[:400]})
+    real_losses_truthful(chk, rng)
+
+
+def _demean(x):
+    return x - np.mean(x)
+
+
+def _halve(x):
+    return x * 0.5
+
+
+def real_losses_truthful(chk: Check, rng):
+    """the real loss classes (with and without coordinate filters, 1 and 2 coordinates, float64 / float32 model output) inside a real calibration:
+    row i of the history holds the vector that was handed to the model, the series the model RETURNED for it (copies taken inside the model),
+    and the configured loss of exactly those series (recomputed with a fresh loss object)"""
+    import contextlib, io, warnings
+    from black_it.calibrator import Calibrator
+    from black_it.loss_functions.fourier import FourierLoss
+    from black_it.loss_functions.likelihood import LikelihoodLoss
+    from black_it.loss_functions.minkowski import MinkowskiLoss
+    from black_it.loss_functions.msm import MethodOfMomentsLoss
+    from black_it.samplers.halton import HaltonSampler
+    from black_it.samplers.random_uniform import RandomUniformSampler
+
+    makers = {"minkowski": lambda f: MinkowskiLoss(coordinate_filters=f), "msm": lambda f: MethodOfMomentsLoss(coordinate_filters=f),
+              "fourier": lambda f: FourierLoss(coordinate_filters=f), "likelihood": lambda f: LikelihoodLoss(coordinate_filters=f)}
+    for it in range(8 if chk.tier == "quick" else 120):
+        D = 1 if it % 2 == 0 else 2                    # noqa: N806
+        name = list(makers)[it % 4] if it % 8 < 4 else rng.choice(list(makers))
+        filt = [rng.choice([_demean, _halve]) if (it % 4 != 3 or j == 0) else None for j in range(D)] if it % 5 != 4 else None
+        E, N, dt = rng.randint(1, 3), rng.choice([20, 33]), (np.float32 if it % 6 == 5 else np.float64)     # noqa: N806
+        calls = []
+
+        def model(theta, N, seed, _calls=calls, _D=D, _dt=dt):  # noqa: N803
+            g = np.random.default_rng(seed)
+            out = (g.standard_normal((N, _D)) * (0.5 + abs(float(theta[0]))) + float(np.sum(theta))).astype(_dt)
+            _calls.append((np.array(theta, dtype=float, copy=True), out.copy()))
+            return out
+        real = np.random.default_rng(it).standard_normal((N, D))
+        bs = rng.randint(1, 3)
+        with contextlib.redirect_stdout(io.StringIO()), warnings.catch_warnings():
+            warnings.simplefilter("ignore")
+            cal = Calibrator(loss_function=makers[name](filt), real_data=real, model=model, samplers=[HaltonSampler(bs), RandomUniformSampler(bs)],
+                             parameters_bounds=[[0.0, 0.0], [1.0, 1.0]], parameters_precision=[0.01, 0.01], ensemble_size=E, verbose=False, saving_folder=None,
+                             random_state=rng.randrange(10 ** 6), n_jobs=1)
+            cal.calibrate(2); cal.calibrate(1)
+            fresh = makers[name](filt)
+        case = {"case": {"kind": "real_loss", "loss": name, "coordinates": D, "filters": None if filt is None else [getattr(f, "__name__", None) for f in filt], "ensemble": E, "dtype": np.dtype(dt).name}}
+        chk.case(["real-loss", name, D, str(filt), E, np.dtype(dt).name, it], filt is not None, {"loss": name, "coordinates": D, "filters": case["case"]["filters"], "ensemble": E, "rows": int(len(cal.params_samp))})
+        chk.count(f"real_loss:{name}:D={D}:{'filtered' if filt is not None else 'unfiltered'}")
+        n = len(cal.params_samp)
+        if not (len(cal.series_samp) == len(cal.losses_samp) == n and len(calls) == n * E):
+            chk.fail(f"history not aligned with the model invocations: {n} rows, {len(calls)} invocations for an ensemble of {E}", case)
+            continue
+        for i in range(n):
+            ens = [calls[i * E + j] for j in range(E)]
+            if any(th.tobytes() != np.asarray(cal.params_samp[i], dtype=float).tobytes() for th, _ in ens):
+                chk.fail(f"row {i}: the recorded vector is not the one the model was run on", case); break
+            got = np.asarray(cal.series_samp[i])
+            want = np.array([o for _, o in ens])
+            if got.shape != want.shape or not np.array_equal(got, want):
+                chk.fail(f"row {i}: the recorded series are not what the model returned for that vector ({name} loss, {D} coordinate(s), filters "
+                         f"{case['case']['filters']}): max difference {float(np.max(np.abs(got.astype(float) - want.astype(float)))) if got.shape == want.shape else 'shape'}", case); break
+            with warnings.catch_warnings():
+                warnings.simplefilter("ignore")
+                ref = fresh.compute_loss(want.copy(), real.copy())
+            if f2h_(float(ref)) != f2h_(float(cal.losses_samp[i])):
+                chk.fail(f"row {i}: the recorded loss {float(cal.losses_samp[i])!r} is not the configured loss of the recorded series ({float(ref)!r})", case); break
+
+
+def f2h_(x):
+    import struct
+    return "nan" if x != x else struct.pack(">d", x).hex()
 
 
 def replay(path: Path) -> int:
